@@ -67,3 +67,33 @@ fn c04_oracle_short_final_block() {
     }
     assert!(bad.is_empty(), "STREAMINFO bounds violated (len, block, min_bs, max_bs, min_fs, max_fs): {bad:?}");
 }
+
+/// C09 (stereo): anti-correlated full-scale noise, where mid is cheap and left/right/side are
+/// not: the frame must not exceed two independent verbatim subframes (+2 bytes per channel).
+#[test]
+fn c09_oracle_stereo_anticorrelated() {
+    let mut worst = Vec::new();
+    for (bps, n) in [(16usize, 4096usize), (24, 1024), (16, 576)] {
+        let mut cfg = config::Encoder::default();
+        cfg.multithread = false;
+        let cfg = cfg.into_verified().expect("valid config");
+        let mut seed = 4242u64;
+        let mut data = Vec::with_capacity(2 * n);
+        for _ in 0..n {
+            seed = seed.wrapping_mul(6364136223846793005).wrapping_add(1442695040888963407);
+            let span = 1i64 << bps;
+            let l = (((seed >> 16) as i64).rem_euclid(span) - span / 2) as i32;
+            data.push(l);
+            data.push(!l);
+        }
+        let mut fb = FrameBuf::with_size(2, n).unwrap();
+        fb.fill_interleaved(&data).unwrap();
+        let info = StreamInfo::new(44100, 2, bps).unwrap();
+        let frame = encode_fixed_size_frame(&cfg, &fb, 0, &info).unwrap();
+        let bound = frame.header().count_bits() + 2 * (8 + bps * n) + 7 + 16 + 32;
+        if frame.count_bits() > bound {
+            worst.push((bps, n, frame.count_bits(), bound));
+        }
+    }
+    assert!(worst.is_empty(), "stereo frame larger than independent verbatim: {worst:?}");
+}
